@@ -336,6 +336,14 @@ impl World {
     }
 
     fn process_chain_events(&mut self, events: Vec<RpcEvent>) {
+        if std::env::var("VERIF_DEBUG").is_ok() {
+            for e in &events {
+                match &e.call {
+                    Call::GetHeader(_) | Call::GetBlock(_) | Call::GetBestBlock => {}
+                    c => eprintln!("    log: {c:?} -> {:?}", e.verdict),
+                }
+            }
+        }
         let mut i = 0;
         while i < events.len() {
             match events[i].call.clone() {
